@@ -22,6 +22,20 @@ def queries(tier):
         b = {'agents': na, 'barriers': nb, 'symbolic prefix steps': k, 'rounds': 4}
         qs.append(_q('live.a%d.b%d.k%d' % (na, nb, k), 'harness', {'NA': na, 'NB': nb, 'K': k, 'LIVENESS': 1, 'ROUNDS': 4},
                      'bounded liveness: after any %d-step prefix, 4 rounds of (all online agents quiescent_state; all agents run) fire every registered callback' % k, b, timeout=3000, mem=14, unwind=max(k + 1, 6)))
+    # one-preemption interleavings at atomic-access granularity (no CBMC threads): outer op kind x preempting op kind pinned per query
+    OPN = {0: 'qs', 1: 'await', 2: 'run', 3: 'offline', 4: 'online'}
+    pairs = [(4, 0), (0, 4), (0, 0), (3, 0), (1, 0), (0, 1)] if tier == 'quick' else [(o, p) for o in range(5) for p in range(5) if not (o == 2 and p == 2)]
+    for (o, p) in pairs:
+        k1, k2 = (3, 3) if tier == 'quick' else (3, 3)
+        qs.append(Q('fine.%s-preempted-by-%s' % (OPN[o], OPN[p]), 'c11', 'c11_qs.c', 'harness_fine2',
+                    defs={'NA': 3, 'NON': 2, 'NB': 1, 'K1': k1, 'K2': k2, 'OUT_OP': o, 'PRE_OP': p, 'FINE2': 1, 'IR2C_EVENTS': 1, 'IR2C_NO_ATOMIC_SECTIONS': 1},
+                    unwind=6, checks='std', inline_witness=True, witness='any', ignore=r'^agent_(await|barrier)\.unwind\.0$',
+                    unwind_kind=[(r'^agent_await$', r'other', 3), (r'^agent_barrier$', r'other', 6), (r'^agent_run$', r'other', 3)],
+                    recursion=[(r'quiescent_state|online|offline|^agent_|^op_do$|^do_qs$|^do_run$|^maybe_preempt$|^ir2c_event', 2)],
+                    timeout=3000, mem_gb=14, optional=(tier == 'quick' and (o, p) not in ((4, 0), (0, 4), (0, 0))),
+                    bounds={'agents': 3, 'initially online': 2, 'prefix steps': k1, 'suffix steps': k2, 'outer operation': OPN[o], 'preempting operation': OPN[p],
+                            'preemption point': 'any of the first 12 atomic accesses / lock operations of the outer call'},
+                    what='%s of one agent preempted at any atomic access by a whole %s of another agent, inside any 3-step prefix / 3-step suffix: callback only after the ghost grace period, at most once, mutex balanced' % (OPN[o], OPN[p])))
     qs.append(_q('barrier.single', 'harness_barrier1', {'NA': 1, 'NB': 1, 'K': 1}, 'quiescent_barrier() with one agent returns, after two period advances', {'agents': 1, 'prior quiescent states': '0..3'}, unwind=6))
     return qs
 def validation_queries(tier):
@@ -36,4 +50,4 @@ ASSUMPTIONS = [
     'compare_exchange_weak may fail spuriously at most twice per call (loop bound, checked by unwinding assertions)',
     'ghost model: an agent counts as having passed a quiescent state when quiescent_state() returned or it went offline after the registration',
 ]
-OUTSIDE = ['interleavings at the granularity of individual atomic accesses and the happens-before clause (relaxed ack counter): not decided here', 'more than 3 agents / 2 barriers / K steps', 'quiescent_barrier with several agents (it spins until others act)', 'liveness beyond the forced-round scenario (no fairness model)']
+OUTSIDE = ['interleavings in which BOTH calls are preempted by each other more than once, and the happens-before clause (relaxed ack counter): not decided here (fine.* queries explore one preemption of one call by a whole call of another agent)', 'more than 3 agents / 2 barriers / K steps', 'quiescent_barrier with several agents (it spins until others act)', 'liveness beyond the forced-round scenario (no fairness model)']
